@@ -398,7 +398,7 @@ func runJob(cfg *Config, job *Job) (res JobResult) {
 }
 
 // jobWatchdog bounds one job; a job is a subtree of executions, normally well under a minute.
-var jobWatchdog = 10 * time.Minute
+var jobWatchdog = 4 * time.Minute
 
 type workerProc struct {
 	cmd *exec.Cmd
